@@ -104,7 +104,9 @@ impl<'h> FindMatchesImpl<'h> {
     /// being returned.
     pub(crate) fn peek_n(&mut self, n: usize) -> PeekResult {
         let mut char_indices = self.char_indices.clone();
-        let mut matches = Vec::with_capacity(n);
+        // `n` may be arbitrarily large ("all remaining matches"), so it is not used as the initial
+        // capacity.
+        let mut matches = Vec::new();
         let mut mode_switch = false;
         let mut new_mode = 0;
         for _ in 0..n {
